@@ -50,7 +50,17 @@ def classify(status, res, file_suffix):
             return ("InvalidDefinitionError without a path", type(res).__name__, str(res)[:200]), None
         return None
     txt = str(res)
-    cause = "int-max-str-digits" if "Exceeds the limit (4300 digits)" in txt else None
+    cause = None
+    if "Exceeds the limit (4300 digits)" in txt:
+        # the known finding is the rendering of a huge Rational (Rational.__str__); the limit met anywhere else is another defect
+        import traceback
+        site, ex = "?", res
+        while ex is not None:
+            fr = [f for f in traceback.extract_tb(ex.__traceback__) if "/pydsdl/" in f.filename]
+            if fr:
+                site = fr[-1].filename.rsplit("/", 1)[-1] + ":" + fr[-1].name
+            ex = ex.__cause__
+        cause = "int-max-str-digits@" + site
     return ("escaped exception is not an InvalidDefinitionError", type(res).__name__, txt[:300]), cause
 
 import re
@@ -70,7 +80,7 @@ def unbounded(text: str) -> bool:
                 v = float(int(m.replace("_", ""), 0)) if re.match(r"0[xXbBoO]", m) else float(m.replace("_", ""))
             except (ValueError, OverflowError):
                 return True
-            if v > 64 and "(10**400)**0.5" not in line.replace(" ", "") and "10 ** 5000" not in line:
+            if v > 64 and "(10**400)**0.5" not in line.replace(" ", "") and "10 ** 5000" not in line and "2 ** 20000" not in line:
                 return True
     return False
 
@@ -174,6 +184,8 @@ CORNERS = ["@assert (-8) ** (1/3) == -2", "@print (10**400) ** 0.5", "@print '\\
            "@print " + "(" * 50 + "1" + ")" * 50, "@print " + "(" * 400 + "1" + ")" * 400, "@print " + "{" * 90 + "1" + "}" * 90,
            "uint8[<=" + "(" * 80 + "1" + ")" * 80 + "] a", "@print 1" + " ** 1" * 3000, "@print 1" + " + 1" * 3000, "@print " + "!" * 3000 + "true",
            "uint8 X = " + "-(" * 200 + "1" + ")" * 200, "@assert " + "(" * 45 + "true" + ")" * 45, "@print " + "(" * 60 + "1" + ")" * 59,
+           "uint8[<=10 ** 5000] a", "uint8[<2 ** 20000] a", "uint8[10 ** 5000] a", "@assert 10 ** 5000 == 1", "@extent 10 ** 5000", "uint8 X = 10 ** 5000",
+           "@print 1" + "0" * 5000, "void8\n@assert _offset_ == {10 ** 5000}", "@print 'a' + 10 ** 5000", "@print {10 ** 5000}.count",
            "@print 2 ** 2 ** 2 ** 2", "@print 1" + "0" * 400, "uint8 " + "a" * 3000, "@print '" + "x" * 5000 + "'", "# " + "c" * 10000]
 
 @core.safe
@@ -379,7 +391,7 @@ def run(ctx):
                 "directive, literal form and targeted corner expression) of three seed definitions, and (sampled) double "
                 "mutations; each text is read: model or InvalidDefinitionError with a path. Every state of Expr.tla's operator x operand-kind grid "
                 "(17 binary, 3 unary, 4 attribute operators x 20 operand kinds incl. data types and sets of sets / types) is "
-                "placed in five expression contexts (@print, constant, capacity, @assert, @extent). 55 corner texts (incl. nesting of 45..400 levels and chains of 3 000 operators), seeded character "
+                "placed in five expression contexts (@print, constant, capacity, @assert, @extent). 65 corner texts (incl. nesting of 45..400 levels and chains of 3 000 operators), seeded character "
                 "noise incl. control characters and byte sequences that are not UTF-8, 39 file-name shapes, each also as a read_files target under five designations (incl. directories and dangling / looping links named like definitions) and 6 duplicate / case-variant file sets are added. "
                 "Non-trivial = input that is rejected; distinct by hash of the mutation list / text")
     ctx.assumptions = ["exponents are small (towers such as 2**2**2**2**2**2 do not terminate "
